@@ -258,6 +258,11 @@ Fixpoint fd_attached (t : str) (flags : list str) : option str :=
   | f :: fs => if prefixb f t && Nat.ltb (length f) (length t) then Some (skipn (length f) t) else fd_attached t fs
   end.
 Definition is_semi (t : str) : bool := is ";" t || str_eqb t [92; 59].
+(* _with_path: the command as fd runs it - with no placeholder in any word the found path is appended *)
+Definition fd_has_placeholder (ws : list str) : bool :=
+  existsb (fun w => existsb (fun p => infixb p w) FD_PLACEHOLDERS) ws.
+Definition fd_with_path (ws : list str) : list str :=
+  if fd_has_placeholder ws then ws else ws ++ [PLACEHOLDER].
 (* split at the first lone ; *)
 Fixpoint fd_cut (l : list str) : list str * option (list str) :=
   match l with
@@ -279,16 +284,16 @@ Fixpoint fd_scan_f (fuel : nat) (l : list str) : hres :=
                | [] => HAsk
                | _ =>
                    match fd_cut r with
-                   | (_, None) => HWords [r] false
+                   | (_, None) => HWords [fd_with_path r] false
                    | (cmd, Some rest) =>
                        (* rest = classify(["fd"] + ...): with fewer than 2 tokens it is allow *)
                        let rr := match rest with [] => HAllow | _ => fd_scan_f f rest end in
                        match cmd, rr with
                        | [], _ => HAsk
                        | _, HAsk => HAsk
-                       | _, HWords cs _ => HWords (cmd :: cs) false
+                       | _, HWords cs _ => HWords (fd_with_path cmd :: cs) false
                        | _, HString _ => HAsk
-                       | _, HAllow => HWords [cmd] false
+                       | _, HAllow => HWords [fd_with_path cmd] false
                        end
                    end
                end in
@@ -297,7 +302,7 @@ Fixpoint fd_scan_f (fuel : nat) (l : list str) : hres :=
                let t' := fd_norm t in
                if negb (str_eqb t' t) && Nat.eqb (length t') 2 then after_flag
                else match fd_attached t' FD_ATTACHED with
-                    | Some v => HWords [v :: r] false
+                    | Some v => HWords [fd_with_path (v :: r)] false
                     | None => scan r
                     end
          end) l
